@@ -4,17 +4,19 @@ import (
 	"go/ast"
 	"go/token"
 	"go/types"
+	"strings"
 
 	"sialint/internal/cfgx"
 	"sialint/internal/ir"
 )
 
 func init() {
-	Explanations["C04"] = "Decides structural necessary conditions of 'subscribers can follow the chain through the update stream' in chain.Manager: (R1) function values taken from the reorg/pool listener maps are invoked only in regions dominated by the success edge of a gated tip-walker call, and every path from that success edge to a return passes the invocation loop (notified whenever, and only when, the tip changed); (R2) every such invocation happens with Manager.mu definitely not held, and every return of a method with a deferred unlock is reached with the mutex held again; (R3) in the update-stream method the loop guard compares len(reverts)+len(applies) strictly below the caller's bound and no path through one iteration appends more than one update, and nothing is appended outside the loop; (R4) the store's revert step deletes the best-chain index entry of the reverted height, which the stream's on-best-chain test relies on to walk a subscriber back from an abandoned branch (same check as C03.R4). NOT decided: contiguity of the returned path, equality of recomputed updates with the originals, validity of the carried proofs, polls racing reorgs beyond lock discipline (C01.R6)."
+	Explanations["C04"] = "Decides structural necessary conditions of 'subscribers can follow the chain through the update stream' in chain.Manager: (R1) function values taken from the reorg/pool listener maps are invoked only in regions dominated by the success edge of a gated tip-walker call, and every path from that success edge to a return passes the invocation loop (notified whenever, and only when, the tip changed); (R2) every such invocation happens with Manager.mu definitely not held, and every return of a method with a deferred unlock is reached with the mutex held again; (R3) in the update-stream method the loop guard compares len(reverts)+len(applies) strictly below the caller's bound and no path through one iteration appends more than one update, and nothing is appended outside the loop; (R4) the store's revert step deletes the best-chain index entry of the reverted height, which the stream's on-best-chain test relies on to walk a subscriber back from an abandoned branch (same check as C03.R4). (R5) every store into the Manager's listener tables uses a key that cannot coincide with a live registration: a value drawn from a random source, a counter of the Manager that is incremented with every registration, or a key stored only on the negative side of a membership test of that table — never a quantity that shrinks when a listener unsubscribes (the table's length), a constant or a caller's value; otherwise a later subscriber silently replaces an earlier one, which then misses every tip change. NOT decided: contiguity of the returned path, equality of recomputed updates with the originals, validity of the carried proofs, polls racing reorgs beyond lock discipline (C01.R6)."
 
 	register(&Rule{ID: "C04.R1", Prop: "C04", Floor: 4, Doc: "listeners are notified exactly on the success edge of a gated reorg", Run: c04r1})
 	register(&Rule{ID: "C04.R2", Prop: "C04", Floor: 6, Doc: "listeners run unlocked; the mutex is re-acquired before the deferred unlock", Run: c04r2})
 	register(&Rule{ID: "C04.R3", Prop: "C04", Floor: 3, Doc: "update stream returns at most the requested number of updates", Run: c04r3})
+	register(&Rule{ID: "C04.R5", Prop: "C04", Floor: 2, Doc: "registering a listener never replaces a live one: the key it is stored under is fresh", Run: c04r5})
 	register(&Rule{ID: "C04.R4", Prop: "C04", Floor: 1, Doc: "reverting a block deletes its best-chain index entry (the update stream's on-best-chain test relies on it)", Run: func(c *Ctx) {
 		s := getStoreRoles(c.P)
 		ph, bw := bestIndexRoles(c, s)
@@ -310,5 +312,85 @@ func c04r3(c *Ctx) {
 			}
 		}
 		ob3.Check(!outside, nil, "an update is appended outside the bounded loop")
+	}
+}
+
+// c04r5: listener keys are fresh.
+func c04r5(c *Ctx) {
+	r := getChainRoles(c.P)
+	for _, f := range r.methodsV {
+		g := f.Graph()
+		for _, n := range g.Nodes {
+			if n.AST == nil {
+				continue
+			}
+			for _, w := range f.WritesIn(n.AST, false) {
+				ix, ok := ast.Unparen(w.LHS).(*ast.IndexExpr)
+				if !ok || w.RHS == nil {
+					continue
+				}
+				tbl := f.FieldOf(ix.X)
+				if tbl != r.onReorg && tbl != r.onPool {
+					continue
+				}
+				c.VisitGraph(f)
+				ob := c.Ob(f, "listener-key-fresh:"+tbl.Name(), n.Pos())
+				key := origin(f, ix.Index)
+				fresh, why := false, ""
+				// (a) drawn from a random source
+				for _, call := range f.CallsIn(key, false) {
+					if call.Fn != nil && call.Fn.Pkg() != nil && strings.Contains(call.Fn.Pkg().Path(), "rand") {
+						fresh, why = true, "drawn from "+call.Fn.Pkg().Path()
+					}
+				}
+				// (b) a counter field incremented in the same method
+				ir.Walk(key, false, func(x ast.Node) {
+					sel, ok := x.(*ast.SelectorExpr)
+					if !ok {
+						return
+					}
+					fld := f.FieldOf(sel)
+					if fld == nil {
+						return
+					}
+					for _, w2 := range f.WritesIn(f.Body, false) {
+						if f.FieldOf(w2.LHS) == fld && (w2.Tok == token.INC || w2.Tok == token.ADD_ASSIGN) {
+							fresh, why = true, "a counter incremented with every registration"
+						}
+					}
+				})
+				// (c) stored only where the table was found not to hold the key
+				if !fresh {
+					var absent []*cfgx.Edge
+					for _, m := range g.Nodes {
+						if m.AST == nil {
+							continue
+						}
+						as, ok := m.AST.(*ast.AssignStmt)
+						if !ok || len(as.Lhs) != 2 || len(as.Rhs) != 1 {
+							continue
+						}
+						rx, ok := ast.Unparen(as.Rhs[0]).(*ast.IndexExpr)
+						if !ok || f.FieldOf(rx.X) != tbl || !sameLvalue(f, rx.Index, ix.Index) {
+							continue
+						}
+						okv := f.ObjOf(as.Lhs[1])
+						for _, k := range g.Nodes {
+							if k.Block != nil && k.Block.Cond == k.AST && len(k.Succs) == 2 && okv != nil && f.ObjOf(k.AST.(ast.Expr)) == okv {
+								absent = append(absent, k.Succs[1])
+							}
+						}
+					}
+					if len(absent) > 0 && f.OnlyVia(n, absent) {
+						fresh, why = true, "stored on the negative side of a membership test"
+					}
+				}
+				if fresh {
+					ob.OK("key is %s", why)
+				} else {
+					ob.Bad(nil, "the listener is stored under %s, which can equal the key of a live registration (after an earlier listener unsubscribed the table's length, a re-used constant or a caller's value names an entry still in use): the earlier subscriber is replaced and never hears of a tip change again", ir.ExprString(key))
+				}
+			}
+		}
 	}
 }
